@@ -1,5 +1,5 @@
 """C10 Loading any configuration input never panics — spec/conf/ConfValidate.tla"""
-import base64, json, os, random, threading
+import base64, json, os, random, re, threading
 import vf
 
 LEVEL = "model_checking"
@@ -7,7 +7,9 @@ LEVEL_TEXT = ("ConfValidate.tla states the constraints named by the statement ov
               "transcription of conf.Validate/Path.validate (layer 1); TLC checks layer 1 => layer 2 on the bounded space and "
               "generates every abstract configuration (written to the file or through MTX_ variables) and the robustness shape "
               "classes; each case is loaded by the real conf.Load in a child process under recover (and a subset by a real Core "
-              "during hot reload); TLC evaluates the statement (no crash, no panic, error or all constraints) on every recorded outcome")
+              "during hot reload); history is a dimension: every shape class is also submitted A,A,OK,A to ONE process (load route) "
+              "and the refused text shapes to a running Core in one process; TLC evaluates the statement (no crash, no panic, error "
+              "or all constraints; same input => same verdict) on every recorded outcome")
 LEVEL_NOTE = ("partial: structured shape classes and constraint classes only, no raw-byte fuzzing of the YAML decoder; nesting "
               "depth <= 10001 (the decoder is quadratic in depth); 'positive timeouts' is read as readTimeout/writeTimeout, other "
               "timeouts are reported as drift only; the statement's '...' is left open; variables that extend a parameter name and "
@@ -99,6 +101,7 @@ class Builder:
         self.params = params
         self.cases = []
         self.rnd = random.Random(ctx.seed * 7919 + 10)
+        self.shape_no = -1      # number of the TLC shape descriptor being concretized (-1: abstract configurations)
         self.by_kind = {}
         for p in params:
             self.by_kind.setdefault(p["kind"], []).append(p)
@@ -108,6 +111,7 @@ class Builder:
              "pred": pred}
         if base_env is not None:
             c["baseEnv"] = base_env
+        c["shapeNo"] = self.shape_no
         if core:
             c["core"] = core
         self.cases.append(c)
@@ -331,6 +335,36 @@ VALID_ENV_TYPE = {"conf.LogLevel": "debug", "conf.AuthMethod": "internal", "conf
                   "conf.IPNetworks": "10.0.0.1", "conf.RTSPTransports": "tcp", "conf.RTSPAuthMethods": "basic"}
 
 
+NOHIST = {"rep": False, "firstOk": False, "firstErr": False, "firstFailed": False, "sameAsFirst": False, "step": 0}
+
+
+def history_records(obs_in_order, meta, via):
+    """trace records of history steps: a repeated input carries what its first submission got."""
+    out = []
+    byhid = {o["hid"]: o for o in obs_in_order}
+    for o in obs_in_order:
+        m = meta[o["hid"]]
+        rec = dict(o)
+        rec["id"] = m["case"]
+        rec["pred"] = "none"
+        rec["via"] = via
+        rec["sfxLeaf"] = False
+        for k in ("crash", "panic", "ok", "err", "compared", "same"):
+            rec.setdefault(k, False)
+        rec.update(NOHIST)
+        rec["step"] = m["step"]
+        rec["isA"] = m["a"]
+        if m["a"] and m["first"] is not None and m["first"] != o["hid"] and m["first"] in byhid:
+            f = byhid[m["first"]]
+            rec["rep"] = True
+            rec["firstOk"] = bool(f.get("ok"))
+            rec["firstErr"] = bool(f.get("err"))
+            rec["firstFailed"] = bool(f.get("panic") or f.get("crash"))
+            rec["sameAsFirst"] = f.get("conf") == o.get("conf")
+        out.append(rec)
+    return out
+
+
 def lap(ctx, label):
     if os.environ.get("VERIF_TIMING"):
         import time
@@ -378,13 +412,20 @@ def run(ctx):
     for c in abstract:
         b.abstract(c)
     nabs = len(b.cases)
-    for s in shapes:
+    for n, s in enumerate(shapes):
+        b.shape_no = n
         b.shape(s)
     cases = b.cases
     bycase = {c["id"]: c for c in cases}
     ctx.set("cases_abstract", nabs)
     ctx.set("cases_shapes", len(cases) - nabs)
 
+    # ---- history (ConfValidate!HistoryPattern): the subjects are submitted to ONE process in the order of the
+    # pattern (load route: quick = one concrete case per shape class and a slice of the abstract configurations)
+    hp = r.tagged("HISTORY")
+    if len(hp) != 1 or "A" not in hp[0]["pattern"]:
+        raise vf.Infra("the generator did not emit the history pattern")
+    pattern = hp[0]["pattern"]
     # candidates for hot reload through a real Core: the environment is fixed when the process starts, so
     # only cases whose environment lets the initial file load (empty, or the decryption key) qualify
     fileonly = [c for c in cases if c["cls"]["class"] == "abstract" and not c["env"]]
@@ -401,15 +442,62 @@ def run(ctx):
         k["initEnc"] = core.get("initEnc", [])
         if c["file"]["kind"] == "doc" and isinstance(c["file"]["doc"], dict):
             k["file"] = {"kind": "doc", "style": "block", "doc": dict(QUIET, **c["file"]["doc"])}
+            if k["file"]["doc"].get("playback"):
+                # the only listener an abstract configuration switches on: let the system choose the port, so that
+                # "the Core stopped" always means "the file was refused" (never "the port was taken")
+                k["file"]["doc"]["playbackAddress"] = "127.0.0.1:0"
+        if c["file"]["kind"] == "text" and "fileText" not in core and re.match(r"[A-Za-z]+:", c["file"]["text"]) \
+                and "---" not in c["file"]["text"]:
+            # a mapping: switch the listeners off in it (if a later submission of it is accepted, no port is opened)
+            k["file"] = {"kind": "text", "text": QUIET_TEXT + c["file"]["text"]}
+        # history on a running Core, in one process (a Core stops when it refuses a file: the next step starts
+        # a new Core in the same process): quick = the text shapes, thorough = every candidate
+        if ctx.thorough or c["cls"]["class"] == "text":
+            k["seq"] = [{"same": True} if what == "A" else
+                        {"same": False, "file": {"kind": "doc", "style": "block", "doc": dict(QUIET, **VALID_DOC)}, "enc": k["initEnc"]}
+                        for what in pattern]
         core_in.append(k)
+
+    # ---- history: subjects of the load route
+    seen_shape = set()
+    subjects = []
+    nth = max(1, nabs // ctx.pick(300, 3000))
+    for c in cases:
+        if c["file"].get("kind") == "deep" and c["file"]["depth"] > ctx.pick(500, 3000):
+            continue
+        if c["cls"]["class"] == "abstract":
+            if c["id"] % nth == 0:
+                subjects.append(c)
+        elif ctx.thorough or c["shapeNo"] not in seen_shape:
+            seen_shape.add(c["shapeNo"])
+            subjects.append(c)
+    hist_steps = []
+    hist_meta = {}
+    for c in subjects:
+        prev_env = None
+        first = None
+        for k, what in enumerate(pattern):
+            if what == "A":
+                st = {"file": c["file"], "enc": c["enc"], "env": c["env"]}
+            else:
+                st = {"file": {"kind": "doc", "doc": VALID_DOC, "style": "block"}, "enc": [], "env": {}}
+            st["id"] = len(hist_steps)
+            st["keep"] = prev_env is not None and prev_env == st["env"]
+            prev_env = st["env"]
+            if what == "A" and first is None:
+                first = st["id"]
+            hist_meta[st["id"]] = {"case": c["id"], "step": k, "a": what == "A", "first": first}
+            hist_steps.append(st)
+    hin = vf.write_ndjson(ctx.path("history_in.ndjson"), hist_steps)
+    hout = ctx.path("history_out.ndjson")
 
     # ---- REPLAY in child processes (and the concrete bytes of the hot-reload files)
     cf = vf.write_ndjson(ctx.path("cases.ndjson"), [{k: c[k] for k in ("id", "file", "enc", "env", "baseEnv") if k in c} for c in cases])
     of = ctx.path("obs.ndjson")
     fin = vf.write_ndjson(ctx.path("corefiles_in.ndjson"), core_in)
     fout = ctx.path("corefiles_out.ndjson")
-    vf.gotest_ok(ctx, PKG, "^TestVerif_C10_(Run|Files)$", cases=cf, out=of, timeout=1500,
-                 params={"FILESIN": fin, "FILESOUT": fout})
+    vf.gotest_ok(ctx, PKG, "^TestVerif_C10_(Run|Files|History)$", cases=cf, out=of, timeout=1500,
+                 params={"FILESIN": fin, "FILESOUT": fout, "HISTIN": hin, "HISTOUT": hout})
     lap(ctx, "go replay")
     obs = {o["id"]: o for o in vf.read_ndjson(of)}
     if len(obs) != len(cases):
@@ -423,7 +511,16 @@ def run(ctx):
         for k in ("crash", "panic", "ok", "err", "compared", "same"):
             o.setdefault(k, False)
         o["sfxLeaf"] = c["cls"]["class"] == "envSuffix" and c["cls"]["kind"] not in CONTAINERS
+        o.update(NOHIST)
         recs.append(o)
+
+    hobs = {o["id"]: o for o in vf.read_ndjson(hout)}
+    if len(hobs) != len(hist_steps):
+        raise vf.Infra("harness produced %d observations for %d history steps" % (len(hobs), len(hist_steps)))
+    hist_recs = history_records([dict(hobs[st["id"]], **{"hid": st["id"]}) for st in hist_steps], hist_meta, "load-history")
+    recs += hist_recs
+    ctx.set("history_sequences_in_one_process", len(subjects))
+    ctx.set("history_loads", len(hist_recs))
 
     # ---- TV: the statement evaluated by TLC on every outcome (the load records while the Core cases run)
     drift = {"layer1": 0, "otherTimeout": 0, "suffixChangedConf": 0}
@@ -446,9 +543,15 @@ def run(ctx):
             c = bycase[rec["id"]]
             record = dict(c["cls"], monitor=bad["monitor"], through=rec["via"])
             what = rec.get("msg") or ""
-            if bad["monitor"] in ("NoCrash", "NoPanic"):
+            if bad["monitor"] == "HistoryIndependent":
+                desc = ("the same input got another verdict when it was submitted again to the same process (%s, step %d of %s): "
+                        "first %s, now %s %s [input: %s]") % (
+                    "running Core, hot reload" if rec["via"].startswith("core") else "conf.Load", rec["step"] + 1, "/".join(pattern),
+                    "accepted" if rec["firstOk"] else "refused", "accepted" if rec["ok"] else "refused",
+                    (rec.get("errMsg") or "")[:150], describe(c, rec))
+            elif bad["monitor"] in ("NoCrash", "NoPanic"):
                 desc = "%s %s: %s [input: %s]" % (
-                    "hot reload in a real Core" if rec["via"] == "core" else "conf.Load",
+                    "hot reload in a real Core" if rec["via"].startswith("core") else "conf.Load",
                     "crashed the process" if rec.get("crash") else "panicked", what[:300], describe(c, rec))
             else:
                 desc = "conf.Load accepted a configuration violating %s: %s [input: %s]" % (
@@ -477,9 +580,10 @@ def run(ctx):
     files = [f for f in vf.read_ndjson(fout)
              if not (bycase[f["id"]]["cls"]["class"] == "text" and obs[f["id"]].get("ok"))]
     texts = [f for f in files if bycase[f["id"]]["cls"]["class"] == "text"]
-    keep = set(f["id"] for f in texts[:: ctx.pick(8, 1)])
+    keep = set(f["id"] for f in texts)     # (every refused text shape, in both tiers)
     files = [f for f in files if bycase[f["id"]]["cls"]["class"] != "text" or f["id"] in keep]
-    core_recs = run_core(ctx, files)
+    core_recs = run_core(ctx, files, pattern)
+    ctx.set("history_sequences_on_a_running_core", sum(1 for f in files if len(f.get("files") or []) > 1))
     lap(ctx, "go core hot reload")
     for tv, part in zip(tvbg.result(), parts):
         judge(tv, part)
@@ -518,23 +622,41 @@ def run(ctx):
     ctx.assume("a configuration is judged by the values conf.Load returned (Conf and Conf.Paths), read in-package by the harness")
 
 
-def run_core(ctx, files):
-    """Hot reload: a real Core is started on a valid file, the file is replaced, the outcome is recorded."""
+def run_core(ctx, files, pattern):
+    """Hot reload: a real Core is started on a valid file, the file is replaced (a sequence of contents for the
+    history cases, all in one process), the outcomes are recorded."""
     if not files:
         return []
+    for f in files:
+        if not f.get("files"):
+            f["files"] = [f["file"]]
     cin = vf.write_ndjson(ctx.path("core_cases.ndjson"), files)
     cout = ctx.path("core_obs.ndjson")
-    vf.gotest_ok(ctx, "./internal/core/", "^TestVerif_C10_HotReload$", cases=cin, out=cout, timeout=1200)
-    out = []
+    vf.gotest_ok(ctx, "./internal/core/", "^TestVerif_C10_HotReload$", cases=cin, out=cout, timeout=1500)
+    got = {}
     for o in vf.read_ndjson(cout):
         if o.get("infra"):
-            raise vf.Infra("hot reload harness: case %s: %s" % (o["id"], o["infra"]))
-        o["pred"] = "none"
-        o["via"] = "core"
-        o["sfxLeaf"] = False
-        for k in ("crash", "panic", "ok", "err", "compared", "same"):
-            o.setdefault(k, False)
-        out.append(o)
-    if len(out) != len(files):
-        raise vf.Infra("hot reload harness produced %d observations for %d cases" % (len(out), len(files)))
-    return sorted(out, key=lambda o: o["id"])
+            raise vf.Infra("hot reload harness: case %s step %s: %s" % (o["id"], o.get("step"), o["infra"]))
+        got[(o["id"], o.get("step", 0))] = o
+    out = []
+    for f in sorted(files, key=lambda f: f["id"]):
+        n = len(f["files"])
+        seq = []
+        meta = {}
+        first = None
+        for k in range(n):
+            o = got.get((f["id"], k))
+            if o is None:
+                if any(x.get("crash") for x in seq):
+                    break       # the process died: the remaining steps were not submitted
+                raise vf.Infra("hot reload harness: no observation for case %s step %d" % (f["id"], k))
+            o = dict(o, hid=(f["id"], k))
+            is_a = n == 1 or pattern[k] == "A"
+            if is_a and first is None:
+                first = o["hid"]
+            meta[o["hid"]] = {"case": f["id"], "step": k, "a": is_a, "first": first}
+            seq.append(o)
+        for rec in history_records(seq, meta, "core" if n == 1 else "core-history"):
+            del rec["hid"]
+            out.append(rec)
+    return out
